@@ -747,6 +747,8 @@ func init() {
 		Doc: "in the pinned SQLite binding, the character pointer given to sqlite3_result_text is non-nil on every path: a nil pointer makes the result SQL NULL"})
 	byProp["C08"] = append(byProp["C08"], "C08.result-text", "C04.vacuum-purge", "C03.open-errors")
 	byProp["C04"] = append(byProp["C04"], "C09.vacuum-handle", "C05.snapshot")
+	byProp["C16"] = append(byProp["C16"], "C09.vacuum-handle")
+	explain["C16"] += " vacuum-handle (shared with C09): 'every object a version refers to exists' after a vacuum — what must stay is computed from the handle that holds the vacuumed, committed tree, not from the one it replaced."
 	explain["C08"] += " vacuum-purge (shared with C04) and open-errors (shared with C03): 'returned … after merge with other writers' versions, and vacuum' — a vacuum marker that is not swept swallows the next INSERT of that key (acknowledged, never stored), and a read fault during a merge that is skipped instead of failing returns a table without another writer's rows."
 	explain["C04"] += " vacuum-handle (shared with C09) and snapshot (shared with C05): after a vacuum or a commit that was interrupted the surviving handle must sit on a tree whose objects exist — the vacuumed tree becomes live before history is deleted, and a failed commit's tree is discarded unconditionally."
 	explain["C08"] += " result-text: setContextResult returns TEXT through the binding's Context.ResultText; sqlite3_result_text with a NULL pointer yields SQL NULL whatever the length, so the pointer argument of that call must be non-nil on every path of ResultText (its sibling ResultBlob always passes an allocated buffer). Violated in the pinned binding for the empty string: recorded known finding."
